@@ -6,7 +6,7 @@ import pickle
 
 import mgen
 from common import freephil, enc, tokenizer, AutoT
-from props import _fetch
+from props import _fetch, _heap
 
 LEVEL = "other"
 MODULE = "Phil.Props.C17"
@@ -262,6 +262,7 @@ def run(ctx):
     os.environ.update(dict(_fetch.ENV_CHOICES))     # the environment names the generated sources refer to
     n = ctx.scale(400, 6000, 1200)
     ccases, creqs, cimpls = [], [], []
+    hcases, hreqs, himpls = [], [], []
     for i in range(n):
         if ctx.time_left() < 30:
             ctx.notes.append("stopped early on time budget")
@@ -312,6 +313,23 @@ def run(ctx):
             creqs.append(_fetch.fetch_req(mt, srcs, env=env))
             cimpls.append(_fetch.fetch_impl(m, ss))
             ccases.append(case)
+        # heap model (Phil/Heap.lean): the identity graph after copy / deepcopy / pickle / customized_copy of a random
+        # object of the master or of a fetch result (whose children point into the master) vs the model's graph
+        if f is None and ctx.mode != "impl-only":
+            roots = [m]
+            if i % 2 == 0:
+                try:
+                    roots.append(m.fetch(sources=ss))
+                except (Exception, freephil.Sorry):
+                    pass
+            hreq, himpl, hdesc = _heap.copy_case(rng, roots)
+            if hreq is None:
+                f = hdesc
+            else:
+                ctx.count("heap_" + hdesc["op"] + ("_of_fetch_result_universe" if len(roots) > 1 else ""))
+                hreqs.append(hreq)
+                himpls.append(himpl)
+                hcases.append(dict(case, heap_op=hdesc))
         cls = None
         if f is None:
             f = copies_faithful(m) or shallow_copies_faithful(m, ss)
@@ -323,6 +341,8 @@ def run(ctx):
             ctx.sample({"master": mt[:300], "history": history})
     if creqs:
         ctx.corr("fetch_after_history", ccases, creqs, cimpls)
+    if hreqs:
+        ctx.corr("heap_copy_graph", hcases, hreqs, himpls)
     # fetch_diff(...).as_str etc. are covered above; interface.index(M) writes captions on shared children (D21)
 
 
